@@ -393,7 +393,7 @@ func init() {
 				}
 				n := int64(-1)
 				for _, g := range guardsOf(site.Block()) {
-					if b, ok := g.If.Cond.(*ssa.BinOp); ok && b.Op == token.EQL && g.Branch {
+					if b := eqOnEdge(g.If.Cond, g.Branch); b != nil {
 						if v, ok := constInt(b.Y); ok && isCallNamed(b.X, "builtin.len") != nil {
 							n = v
 						}
@@ -956,8 +956,45 @@ func recvType(fn *ssa.Function) types.Type {
 	return types.Typ[types.Invalid]
 }
 
-// loopDirection inspects the first counting loop of fn: +1 ascending from 0, -1 descending from len-1, 0 unknown.
+// loopDirection inspects the first counting loop of fn that indexes a sequence with its counter:
+// +1 when the first element visited is index 0 and the counter grows, -1 when the first element
+// visited is index len-1 and the counter shrinks, 0 otherwise. The counter may be offset from the
+// index (`for d := len(s); d > 0; d-- { s[d-1] }`, or the -1-based counter of a range loop).
 func loopDirection(fn *ssa.Function) int {
+	type affine struct {
+		len bool // contains len(x)
+		k   int64
+		ok  bool
+	}
+	var eval func(v ssa.Value, ph *ssa.Phi, depth int) (viaPhi bool, a affine)
+	// value as (phi?) + (len?) + k
+	eval = func(v ssa.Value, ph *ssa.Phi, depth int) (bool, affine) {
+		if depth > 4 {
+			return false, affine{}
+		}
+		if v == ssa.Value(ph) {
+			return true, affine{ok: true}
+		}
+		if k, ok := constInt(v); ok {
+			return false, affine{k: k, ok: true}
+		}
+		if isCallNamed(v, "builtin.len") != nil {
+			return false, affine{len: true, ok: true}
+		}
+		if bo, ok := v.(*ssa.BinOp); ok && (bo.Op == token.ADD || bo.Op == token.SUB) {
+			if k, ok := constInt(bo.Y); ok {
+				via, a := eval(bo.X, ph, depth+1)
+				if a.ok {
+					if bo.Op == token.SUB {
+						k = -k
+					}
+					a.k += k
+					return via, a
+				}
+			}
+		}
+		return false, affine{}
+	}
 	dir := 0
 	eachInstr(fn, func(in ssa.Instruction) {
 		ph, ok := in.(*ssa.Phi)
@@ -968,34 +1005,47 @@ func loopDirection(fn *ssa.Function) int {
 		if !ok || b.Info()&types.IsInteger == 0 {
 			return
 		}
-		start, step := 0, 0
+		var step int64
+		var init affine
 		for _, e := range ph.Edges {
-			if i, ok := constInt(e); ok && (i == 0 || i == -1) {
-				start = +1 // an index loop from 0, or a range loop (index phi starts at -1 and is incremented first)
-			}
-			if bo, ok := e.(*ssa.BinOp); ok {
-				if bo.Op == token.SUB && isCallNamed(bo.X, "builtin.len") != nil {
-					if one, ok := constInt(bo.Y); ok && one == 1 {
-						start = -1
-					}
-				}
-				if bo.X == ph {
-					if one, ok := constInt(bo.Y); ok && one == 1 {
-						if bo.Op == token.ADD {
-							step = +1
-						} else if bo.Op == token.SUB {
-							step = -1
-						}
-					}
-				}
+			via, a := eval(e, ph, 0)
+			switch {
+			case via && a.ok && !a.len && (a.k == 1 || a.k == -1):
+				step = a.k
+			case !via && a.ok:
+				init = a
 			}
 		}
-		if start == +1 && step == +1 {
-			dir = +1
+		if step == 0 || !init.ok {
+			return
 		}
-		if start == -1 && step == -1 {
-			dir = -1
-		}
+		// element accesses indexed by the counter (plus a constant) inside the loop
+		loop := loopBlocks(ph.Block())
+		eachInstr(fn, func(x ssa.Instruction) {
+			if dir != 0 || !loop[x.Block()] {
+				return
+			}
+			var idx ssa.Value
+			switch y := x.(type) {
+			case *ssa.IndexAddr:
+				idx = y.Index
+			case *ssa.Index:
+				idx = y.Index
+			default:
+				return
+			}
+			via, a := eval(idx, ph, 0)
+			if !via || !a.ok || a.len {
+				return
+			}
+			first := affine{len: init.len, k: init.k + a.k}
+			switch {
+			case step == +1 && !first.len && first.k == 0:
+				dir = +1
+			case step == -1 && first.len && first.k == -1:
+				dir = -1
+			}
+		})
 	})
 	return dir
 }
@@ -1082,7 +1132,7 @@ func init() {
 					if cl, ok := ec.cond.(*ssa.Call); ok && calleeName(&cl.Call) == "vuego.hasVSlot" && ec.want {
 						byVSlot = true
 					}
-					if b, ok := ec.cond.(*ssa.BinOp); ok && b.Op == token.EQL && ec.want {
+					if b := eqOnEdge(ec.cond, ec.want); b != nil {
 						if s, ok := constString(b.Y); ok && s == "template" {
 							byTag = true
 						}
